@@ -1,8 +1,474 @@
-//! Client-level (WebAuthn) and U2F ceremonies - filled in after the CTAP2 level.
+//! Client-level (WebAuthn) ceremonies: Client::register / Client::authenticate driven from the abstract requests of
+//! spec/ClientCer.tla, with the relying-party role reading the returned credential independently.
+use crate::cer::*;
 use crate::cerrun::Run;
-use serde_json::Value;
+use crate::rp;
+use crate::util;
+use ciborium::value::Value as Cbor;
+use passkey_client::{DefaultClientData, DefaultClientDataWithCustomHash, DefaultClientDataWithExtra, WebauthnError};
+use passkey_types::webauthn::{
+    AuthenticatedPublicKeyCredential, AuthenticationExtensionsClientInputs, AuthenticationExtensionsPrfInputs,
+    AuthenticationExtensionsPrfValues, AuthenticatorSelectionCriteria, CreatedPublicKeyCredential,
+    CredentialCreationOptions, CredentialRequestOptions, PublicKeyCredentialCreationOptions, PublicKeyCredentialParameters,
+    PublicKeyCredentialRequestOptions, PublicKeyCredentialRpEntity, PublicKeyCredentialType, PublicKeyCredentialUserEntity,
+    ResidentKeyRequirement, UserVerificationRequirement,
+};
+use passkey_types::Bytes;
+use rand::{Rng, RngCore};
+use serde_json::{json, Value};
+use std::collections::HashMap;
+use url::Url;
 
-pub fn ceremony(_run: &mut Run, c: &Value) {
-    eprintln!("pkverif: api {} not implemented yet", c["api"]);
-    std::process::exit(2);
+pub fn origin_url(name: &str) -> &'static str {
+    match name {
+        "o.r1w" => "https://www.example.com",
+        "o.r1" => "https://example.com",
+        "o.r1p" => "https://example.com:8443",
+        "o.evil" => "https://evilexample.com",
+        "o.http" => "http://www.example.com",
+        "o.r2" => "https://login.other-site.org",
+        "o.local" => "http://localhost:8080",
+        "o.ip" => "https://192.168.7.7",
+        _ => "https://unknown-origin.example.net",
+    }
+}
+
+fn rpid_string(run: &mut Run, name: &str) -> Option<String> {
+    match name {
+        "absent" => None,
+        "com" => Some("com".to_string()),
+        "localhost" => Some("localhost".to_string()),
+        other => Some(run.sh.lock().unwrap().dict.rp_string(other)),
+    }
+}
+
+fn alg_of(name: &str) -> coset::iana::Algorithm {
+    match name {
+        "ES256" => coset::iana::Algorithm::ES256,
+        "RS256" => coset::iana::Algorithm::RS256,
+        "EdDSA" => coset::iana::Algorithm::EdDSA,
+        _ => coset::iana::Algorithm::ES512,
+    }
+}
+
+fn challenge(run: &mut Run, class: &str) -> Vec<u8> {
+    let n = match class {
+        "c0" => 0,
+        "c1" => 1,
+        "c1024" => 1024,
+        _ => 32,
+    };
+    let mut v = vec![0u8; n];
+    run.rng.fill_bytes(&mut v);
+    v
+}
+
+fn webauthn_salt(input: &[u8]) -> [u8; 32] {
+    let mut m = b"WebAuthn PRF".to_vec();
+    m.push(0);
+    m.extend_from_slice(input);
+    rp::sha256(&m)
+}
+
+/// Concrete PRF input named `name`; registers the salts a correct client could derive from it.
+fn prf_input(run: &mut Run, name: &str, hashed: bool, badlen: bool) -> Bytes {
+    let len = if hashed {
+        if badlen {
+            *[0usize, 31, 33, 64].get(run.rng.gen_range(0..4)).unwrap()
+        } else {
+            32
+        }
+    } else {
+        *[0usize, 1, 31, 32, 33, 1000].get(run.rng.gen_range(0..6)).unwrap()
+    };
+    let mut b = vec![0u8; len];
+    run.rng.fill_bytes(&mut b);
+    // two inputs of one request must differ, or their outputs could not be told apart (only the empty input can collide)
+    while !hashed && run.salts.iter().any(|(_, s)| *s == webauthn_salt(&b)) {
+        b = vec![0u8; 1 + run.rng.gen_range(0..40)];
+        run.rng.fill_bytes(&mut b);
+    }
+    run.salts.push((name.to_string(), webauthn_salt(&b)));
+    if b.len() == 32 {
+        run.salts.push((format!("raw:{name}"), b.clone().try_into().unwrap()));
+    }
+    b.into()
+}
+
+fn prf_values(run: &mut Run, prefix: &str, n: &str, hashed: bool, badlen: bool) -> Option<AuthenticationExtensionsPrfValues> {
+    match n {
+        "one" => Some(AuthenticationExtensionsPrfValues { first: prf_input(run, &format!("{prefix}1"), hashed, badlen), second: None }),
+        "two" => Some(AuthenticationExtensionsPrfValues {
+            first: prf_input(run, &format!("{prefix}1"), hashed, false),
+            second: Some(prf_input(run, &format!("{prefix}2"), hashed, badlen)),
+        }),
+        _ => None,
+    }
+}
+
+/// one member (`prf` or `prfAlreadyHashed`); `tag` distinguishes the inputs of the two members
+fn prf_member(run: &mut Run, c: &Value, hashed: bool, tag: &str) -> AuthenticationExtensionsPrfInputs {
+    let badlen = hashed && c["badlen"].as_bool().unwrap();
+    let eval = prf_values(run, &format!("{tag}e"), c["eval"].as_str().unwrap(), hashed, badlen);
+    let eval_by_credential = if c["byCredGiven"].as_bool().unwrap() {
+        let mut m = HashMap::new();
+        for e in c["byCred"].as_array().unwrap() {
+            let id = e["id"].as_str().unwrap();
+            let key = match id {
+                "k:empty" => String::new(),
+                "k:bad64" => "!!not*base64!!".to_string(),
+                name => {
+                    let bytes = {
+                        let sh = run.sh.clone();
+                        let mut s = sh.lock().unwrap();
+                        s.dict.cred_bytes(name, &mut run.rng)
+                    };
+                    rp::b64url(&bytes)
+                }
+            };
+            let v = prf_values(run, &format!("{tag}{id}."), e["n"].as_str().unwrap(), hashed, badlen).unwrap();
+            m.insert(key, v);
+        }
+        Some(m)
+    } else {
+        None
+    };
+    AuthenticationExtensionsPrfInputs { eval, eval_by_credential }
+}
+
+fn extensions(run: &mut Run, req: &Value) -> Option<AuthenticationExtensionsClientInputs> {
+    let c = &req["cprf"];
+    let kind = c["kind"].as_str().unwrap();
+    let cred_props = match req["credProps"].as_str().unwrap() {
+        "true" => Some(true),
+        "false" => Some(false),
+        _ => None,
+    };
+    let prf = if kind == "prf" || kind == "both" { Some(prf_member(run, c, false, "")) } else { None };
+    // the pre-hashed member carries its own inputs: "h:" when both members are present
+    let prf_already_hashed = if kind == "hashed" || kind == "both" {
+        Some(prf_member(run, c, true, if kind == "both" { "h:" } else { "" }))
+    } else {
+        None
+    };
+    if cred_props.is_none() && prf.is_none() && prf_already_hashed.is_none() {
+        None
+    } else {
+        Some(AuthenticationExtensionsClientInputs { cred_props, prf, prf_already_hashed })
+    }
+}
+
+fn werr_name(e: &WebauthnError) -> (String, u8) {
+    match e {
+        WebauthnError::AuthenticatorError(b) => ("AuthenticatorError".to_string(), *b),
+        other => (format!("{other:?}"), 0),
+    }
+}
+
+fn extra_value() -> Value {
+    json!({"androidPackageName": "com.example.browser", "zeta": {"b": 1, "a": [1, 2, {"k": null}]}, "alpha": null, "mid": "x"})
+}
+
+/// Reading of the collected client data: (type, challenge ok, origin ok, crossOrigin, order ok, sha256 of the bytes)
+fn read_client_data(bytes: &[u8], chal: &[u8], origin: &str, extra: Option<&Value>) -> (String, bool, bool, bool, bool) {
+    let Ok(Value::Object(m)) = serde_json::from_slice::<Value>(bytes) else {
+        return ("unparseable".into(), false, false, false, false);
+    };
+    let ty = m.get("type").and_then(|v| v.as_str()).unwrap_or("missing").to_string();
+    let ch = m.get("challenge").and_then(|v| v.as_str()).unwrap_or("\u{0}");
+    // unpadded base64url: our own decoder accepts only the url-safe alphabet and no padding
+    let chal_ok = rp::b64url_decode(ch).as_deref() == Some(chal) && rp::b64url(chal) == ch;
+    let origin_ok = m.get("origin").and_then(|v| v.as_str()) == Some(origin);
+    let cross = m.get("crossOrigin").and_then(|v| v.as_bool()).unwrap_or(false);
+    let keys: Vec<&String> = m.keys().collect();
+    let mut expect: Vec<String> = vec!["type".into(), "challenge".into(), "origin".into(), "crossOrigin".into()];
+    if let Some(Value::Object(x)) = extra {
+        expect.extend(x.keys().cloned());
+    }
+    let order_ok = keys.len() == expect.len() && keys.iter().zip(expect.iter()).all(|(a, b)| *a == b)
+        && extra.map(|x| x.as_object().unwrap().iter().all(|(k, v)| m.get(k) == Some(v))).unwrap_or(true);
+    (ty, chal_ok, origin_ok, cross, order_ok)
+}
+
+struct Prepared {
+    origin: Url,
+    chal: Vec<u8>,
+    mode: String,
+    custom_hash: Vec<u8>,
+}
+
+fn prepare(run: &mut Run, req: &Value) -> Prepared {
+    let origin = Url::parse(origin_url(req["origin"].as_str().unwrap())).unwrap();
+    let chal = challenge(run, req["chal"].as_str().unwrap());
+    let mut custom_hash = vec![0u8; 32];
+    run.rng.fill_bytes(&mut custom_hash);
+    Prepared { origin, chal, mode: req["cdmode"].as_str().unwrap().to_string(), custom_hash }
+}
+
+fn register(run: &mut Run, req: &Value) -> Value {
+    let p = prepare(run, req);
+    let (user, rpid) = {
+        let u = {
+            let sh = run.sh.clone();
+            let mut s = sh.lock().unwrap();
+            s.dict.user_bytes(req["user"].as_str().unwrap(), &mut run.rng)
+        };
+        (u, rpid_string(run, req["rpid"].as_str().unwrap()))
+    };
+    // make sure the effective RP ID the property defines is known to the dictionary under the plan's name
+    run.sh.lock().unwrap().dict.rp_string(req["rp"].as_str().unwrap());
+    let exclude = if req["excludeGiven"].as_bool().unwrap() { Some(run.descriptors(&req["exclude"])) } else { None };
+    let ext = extensions(run, req);
+    let options = CredentialCreationOptions {
+        public_key: PublicKeyCredentialCreationOptions {
+            rp: PublicKeyCredentialRpEntity { id: rpid, name: "Example RP \u{1F511}".into() },
+            user: PublicKeyCredentialUserEntity { id: user.into(), display_name: "W\u{00e9}ndy \u{6f22}".into(), name: "wendy@example.com".into() },
+            challenge: p.chal.clone().into(),
+            pub_key_cred_params: req["algs"]
+                .as_array()
+                .unwrap()
+                .iter()
+                .map(|a| PublicKeyCredentialParameters { ty: PublicKeyCredentialType::PublicKey, alg: alg_of(a.as_str().unwrap()) })
+                .collect(),
+            timeout: None,
+            exclude_credentials: exclude,
+            authenticator_selection: if req["authSel"].as_bool().unwrap() {
+                Some(AuthenticatorSelectionCriteria {
+                    authenticator_attachment: None,
+                    resident_key: match req["residentKey"].as_str().unwrap() {
+                        "discouraged" => Some(ResidentKeyRequirement::Discouraged),
+                        "preferred" => Some(ResidentKeyRequirement::Preferred),
+                        "required" => Some(ResidentKeyRequirement::Required),
+                        _ => None,
+                    },
+                    require_resident_key: req["requireRk"].as_bool().unwrap(),
+                    user_verification: uv_req(req["uvreq"].as_str().unwrap()),
+                })
+            } else {
+                None
+            },
+            hints: None,
+            attestation: Default::default(),
+            attestation_formats: None,
+            extensions: ext,
+        },
+    };
+    let mut client = run.client.take().unwrap();
+    let sh = run.sh.clone();
+    let extra = extra_value();
+    let out = util::catch(|| match p.mode.as_str() {
+        "extra" => drive(client.register(&p.origin, options, DefaultClientDataWithExtra(extra.clone())), &sh),
+        "hash" => drive(client.register(&p.origin, options, DefaultClientDataWithCustomHash(p.custom_hash.clone())), &sh),
+        _ => drive(client.register(&p.origin, options, DefaultClientData), &sh),
+    });
+    run.client = Some(client);
+    match out {
+        Err(m) => json!({"ev": "Crash", "d": {"what": m}}),
+        Ok(Outcome::Hung) => json!({"ev": "Crash", "d": {"what": "hung"}}),
+        Ok(Outcome::Cancelled(_)) => json!({"ev": "Cancel", "d": {"after": sh.lock().unwrap().counted}}),
+        Ok(Outcome::Done(Err(e))) => {
+            let (name, code) = werr_name(&e);
+            let mut d = Run::err_end(code);
+            d["werr"] = json!(name);
+            json!({"ev": "End", "d": d})
+        }
+        Ok(Outcome::Done(Ok(c))) => json!({"ev": "End", "d": judge_register(run, &p, &c, if p.mode == "extra" { Some(&extra) } else { None })}),
+    }
+}
+
+fn uv_req(s: &str) -> UserVerificationRequirement {
+    match s {
+        "required" => UserVerificationRequirement::Required,
+        "discouraged" => UserVerificationRequirement::Discouraged,
+        _ => UserVerificationRequirement::Preferred,
+    }
+}
+
+fn cbor_get<'a>(m: &'a Cbor, key: &str) -> Option<&'a Cbor> {
+    m.as_map()?.iter().find(|(k, _)| k.as_text() == Some(key)).map(|(_, v)| v)
+}
+
+fn judge_register(run: &mut Run, p: &Prepared, c: &CreatedPublicKeyCredential, extra: Option<&Value>) -> Value {
+    // the authenticator-level reading first, from the authenticator data the RP receives
+    let mut d = Run::end_default();
+    d["ok"] = json!(true);
+    let bytes: &[u8] = &c.response.authenticator_data;
+    let origin = origin_text(&p.origin);
+    let (ty, chal_ok, origin_ok, cross, order_ok) = read_client_data(&c.response.client_data_json, &p.chal, &origin, extra);
+    // attestation object: {"fmt": "none", "attStmt": {}, "authData": bytes}
+    let att: Option<Cbor> = ciborium::de::from_reader(&c.response.attestation_object[..]).ok();
+    let fmt = att.as_ref().and_then(|a| cbor_get(a, "fmt")).and_then(|v| v.as_text()).unwrap_or("?").to_string();
+    let stmt_empty = att.as_ref().and_then(|a| cbor_get(a, "attStmt")).and_then(|v| v.as_map()).map(|m| m.is_empty()).unwrap_or(false);
+    let inner = att.as_ref().and_then(|a| cbor_get(a, "authData")).and_then(|v| v.as_bytes()).cloned();
+    let copies = inner.as_deref() == Some(bytes) && att.as_ref().and_then(|a| a.as_map()).map(|m| m.len() == 3).unwrap_or(false);
+    let mut client = json!({"present": true, "cdType": ty, "chalOk": chal_ok, "originOk": origin_ok, "crossOrigin": cross,
+                            "copiesEqual": copies, "attFmt": if stmt_empty { fmt } else { format!("{fmt}+stmt") },
+                            "idOk": c.id == rp::b64url(&c.raw_id), "rawIdOk": false, "coseEqDer": false,
+                            "algReported": c.response.public_key_algorithm, "credProps": "absent", "orderOk": order_ok});
+    client["credProps"] = json!(match c.client_extension_results.cred_props.as_ref().and_then(|p| p.discoverable) {
+        Some(true) => "true",
+        Some(false) => "false",
+        None => if c.client_extension_results.cred_props.is_some() { "empty" } else { "absent" },
+    });
+    if let Some(ad) = rp::parse_authdata(bytes) {
+        d["wf"] = json!(ad.well_formed);
+        d["flags"] = json!(rp::flag_names(ad.flags));
+        d["ctr"] = ctr_json(Some(ad.counter));
+        d["rphash"] = json!(run.rp_of_hash(&ad.rp_hash));
+        d["at"] = json!(ad.attested.is_some());
+        d["ed"] = json!(ad.ext.is_some());
+        d["fmt"] = json!("None");
+        if let Some(at) = &ad.attested {
+            let fresh = !run.seen_ids.iter().any(|i| *i == at.cred_id);
+            run.seen_ids.push(at.cred_id.clone());
+            let name = run.sh.lock().unwrap().dict.cred_name_or_new(&at.cred_id);
+            d["cred"] = json!(run.sh.lock().unwrap().dict.cred_name(&c.raw_id));
+            d["attid"] = json!(name);
+            d["idlen"] = json!(at.cred_id.len());
+            d["fresh"] = json!(fresh);
+            client["rawIdOk"] = json!(at.cred_id[..] == c.raw_id[..]);
+            if let Some(ci) = rp::cose_info(&at.cose) {
+                let point = match (&ci.x, &ci.y) {
+                    (Some(x), Some(y)) => rp::p256_point(x, y),
+                    _ => None,
+                };
+                d["cose"] = json!({"labels": ci.labels, "kty": ci.kty.unwrap_or(0), "alg": ci.alg.unwrap_or(0),
+                                   "crv": ci.crv.unwrap_or(0), "point": point.is_some() && ci.non_int_labels == 0});
+                let der_point = c.response.public_key.as_ref().and_then(|k| rp::sec1_from_spki(k));
+                client["coseEqDer"] = json!(point.is_some() && der_point == point);
+                if let Some(pt) = &point {
+                    run.sh.lock().unwrap().dict.pubkeys.push((name.clone(), pt.clone()));
+                }
+                if let Some(st) = run.stored(&at.cred_id) {
+                    d["stored"] = cred_json(&run.sh.lock().unwrap().dict, &st);
+                    d["keymatch"] = json!(crate::cerrun::private_matches(&st, point.as_deref()));
+                }
+            }
+        }
+        if let Some(pr) = c.client_extension_results.prf.as_ref() {
+            d["prfEnabled"] = json!(match pr.enabled {
+                Some(true) => "true",
+                Some(false) => "false",
+                None => "absent",
+            });
+            let cred = ad.attested.as_ref().and_then(|a| run.stored(&a.cred_id));
+            d["prf1"] = run.prf_pair(pr.results.as_ref().map(|v| &v.first[..]), cred.as_ref());
+            d["prf2"] = run.prf_pair(pr.results.as_ref().and_then(|v| v.second.as_ref()).map(|s| &s[..]), cred.as_ref());
+        }
+    } else {
+        d["wf"] = json!(false);
+    }
+    d["client"] = client;
+    d
+}
+
+/// the serialised origin as `url` normalises it (what a relying party compares with)
+fn origin_text(u: &Url) -> String {
+    u.origin().ascii_serialization()
+}
+
+fn authenticate(run: &mut Run, req: &Value) -> Value {
+    let p = prepare(run, req);
+    let rpid = rpid_string(run, req["rpid"].as_str().unwrap());
+    run.sh.lock().unwrap().dict.rp_string(req["rp"].as_str().unwrap());
+    let allow = if req["allowGiven"].as_bool().unwrap() { Some(run.descriptors(&req["allow"])) } else { None };
+    let ext = extensions(run, req);
+    let options = CredentialRequestOptions {
+        public_key: PublicKeyCredentialRequestOptions {
+            challenge: p.chal.clone().into(),
+            timeout: None,
+            rp_id: rpid,
+            allow_credentials: allow,
+            user_verification: uv_req(req["uvreq"].as_str().unwrap()),
+            hints: None,
+            attestation: Default::default(),
+            attestation_formats: None,
+            extensions: ext,
+        },
+    };
+    let mut client = run.client.take().unwrap();
+    let sh = run.sh.clone();
+    let extra = extra_value();
+    let out = util::catch(|| match p.mode.as_str() {
+        "extra" => drive(client.authenticate(&p.origin, options, DefaultClientDataWithExtra(extra.clone())), &sh),
+        "hash" => drive(client.authenticate(&p.origin, options, DefaultClientDataWithCustomHash(p.custom_hash.clone())), &sh),
+        _ => drive(client.authenticate(&p.origin, options, DefaultClientData), &sh),
+    });
+    run.client = Some(client);
+    match out {
+        Err(m) => json!({"ev": "Crash", "d": {"what": m}}),
+        Ok(Outcome::Hung) => json!({"ev": "Crash", "d": {"what": "hung"}}),
+        Ok(Outcome::Cancelled(_)) => json!({"ev": "Cancel", "d": {"after": sh.lock().unwrap().counted}}),
+        Ok(Outcome::Done(Err(e))) => {
+            let (name, code) = werr_name(&e);
+            let mut d = Run::err_end(code);
+            d["werr"] = json!(name);
+            json!({"ev": "End", "d": d})
+        }
+        Ok(Outcome::Done(Ok(c))) => json!({"ev": "End", "d": judge_authenticate(run, &p, &c, if p.mode == "extra" { Some(&extra) } else { None })}),
+    }
+}
+
+fn judge_authenticate(run: &mut Run, p: &Prepared, c: &AuthenticatedPublicKeyCredential, extra: Option<&Value>) -> Value {
+    let mut d = Run::end_default();
+    d["ok"] = json!(true);
+    let bytes: &[u8] = &c.response.authenticator_data;
+    let origin = origin_text(&p.origin);
+    let (ty, chal_ok, origin_ok, cross, order_ok) = read_client_data(&c.response.client_data_json, &p.chal, &origin, extra);
+    let client = json!({"present": true, "cdType": ty, "chalOk": chal_ok, "originOk": origin_ok, "crossOrigin": cross,
+                        "copiesEqual": c.response.attestation_object.is_none(), "attFmt": "none",
+                        "idOk": c.id == rp::b64url(&c.raw_id), "rawIdOk": true, "coseEqDer": true,
+                        "algReported": 0, "credProps": if c.client_extension_results.cred_props.is_some() { "present" } else { "absent" },
+                        "orderOk": order_ok});
+    if let Some(ad) = rp::parse_authdata(bytes) {
+        d["wf"] = json!(ad.well_formed);
+        d["flags"] = json!(rp::flag_names(ad.flags));
+        d["ctr"] = ctr_json(Some(ad.counter));
+        d["rphash"] = json!(run.rp_of_hash(&ad.rp_hash));
+        d["at"] = json!(ad.attested.is_some());
+        d["ed"] = json!(ad.ext.is_some());
+        // the signature covers authenticatorData || SHA-256(clientDataJSON), or the caller-supplied hash
+        let mut msg = bytes.to_vec();
+        if p.mode == "hash" {
+            msg.extend_from_slice(&p.custom_hash);
+        } else {
+            msg.extend_from_slice(&rp::sha256(&c.response.client_data_json));
+        }
+        let s = run.sh.lock().unwrap();
+        d["cred"] = json!(s.dict.cred_name(&c.raw_id));
+        d["user"] = json!(c.response.user_handle.as_ref().map(|u| s.dict.user_name(u)).unwrap_or_else(|| "none".to_string()));
+        d["sigkey"] = json!(s
+            .dict
+            .pubkeys
+            .iter()
+            .find(|(_, pk)| rp::verify_der(pk, &msg, &c.response.signature))
+            .map(|(n, _)| n.clone())
+            .unwrap_or_else(|| "none".to_string()));
+    } else {
+        d["wf"] = json!(false);
+    }
+    let cred = run.stored(&c.raw_id);
+    if let Some(st) = &cred {
+        d["stored"] = cred_json(&run.sh.lock().unwrap().dict, st);
+    }
+    if let Some(pr) = c.client_extension_results.prf.as_ref() {
+        d["prf1"] = run.prf_pair(pr.results.as_ref().map(|v| &v.first[..]), cred.as_ref());
+        d["prf2"] = run.prf_pair(pr.results.as_ref().and_then(|v| v.second.as_ref()).map(|s| &s[..]), cred.as_ref());
+    }
+    d["client"] = client;
+    d
+}
+
+pub fn ceremony(run: &mut Run, c: &Value) {
+    let api = c["api"].as_str().unwrap();
+    let op = c["op"].as_str().unwrap();
+    let ev = match (api, op) {
+        ("client", "mc") => register(run, &c["req"]),
+        ("client", "ga") => authenticate(run, &c["req"]),
+        _ => {
+            eprintln!("pkverif: api {api}/{op} not implemented");
+            std::process::exit(2);
+        }
+    };
+    run.push(ev);
 }
